@@ -121,7 +121,7 @@ func readAll(db *originium.DB, keys []vlib.Str) map[int]string {
 	_ = db.View(func(tx *originium.Txn) error {
 		for i, k := range keys {
 			if v, ok := tx.Get(string(k)); ok {
-				out[i] = string(v)
+				out[i] = crashlib.Digest(string(v))
 			} else {
 				out[i] = crashlib.Absent
 			}
